@@ -4,6 +4,7 @@ import ScVerif.C18.Mode
 import ScVerif.C18.Seg64
 import ScVerif.C18.Mode64
 import ScVerif.C18.Shape
+import ScVerif.C18.F32
 /-! Driver handler for C18: parses one request line, runs the model, prints the canonical answer. -/
 namespace ScVerif.C18
 open ScVerif.Line
@@ -167,6 +168,16 @@ def handleSeg (toks : List String) : Option String :=
     let s ← parseSeg? s
     let r := cutSeg d s
     pure (showOptSeg r.before ++ "|" ++ showOptSeg r.after ++ "|" ++ showBool r.outside)
+  | ["f32add", a, b] => do
+    let a ← parseInt? a
+    let b ← parseInt? b
+    pure (toString (addF a b))
+  | ["sumf", ls] => do
+    let ls ← parseSegLists? ls
+    pure (showSegs (sumF ls))
+  | ["summagf", l] => do
+    let l ← parseSegs? l
+    pure (toString (sumMagnitudeF l))
   | ["cuts", d, s] => do
     let d ← parseInt? d
     let s ← parseSegS? s
